@@ -1526,6 +1526,52 @@ def responses_family(run, replay=None):
                           nontrivial=lambda b: True, sanity=sanity, extra_cov=extra)
 
 
+# =====================================================================================================
+# Reads from a connection that is not encrypted yet (PlainRead.tla): a further stage of C05
+# =====================================================================================================
+
+def plainread_gen(run):
+    thorough = run.tier == 'thorough'
+    run.model_check('PlainReadMC', 'PlainRead_MC.cfg', workers=2)
+    groups = []
+    total = 0
+    attacks = []
+    for bodies, sw, name in (([0, 2, 1], 2, 'BodiesA'), ([1, 0], 1, 'BodiesB'), ([0, 0, 0], 0, 'BodiesC')):
+        cfg = 'CONSTANTS\n  Bodies <- %s\n  Switch = %d\n  Weak = %%s\nINIT GInit\nNEXT GNext\n%%s\nCHECK_DEADLOCK FALSE\n' % (name, sw)
+        edge = dedupe_prefixes(run.generate('PlainReadGen', cfgtext=cfg % ('{}', 'INVARIANT EmitEdge\nVIEW EdgeView'), timeout=600))
+        total += len(edge)
+        if not thorough:
+            edge = sample(edge, 150, run.seed)
+        scen = dict(a='Scenario', n=0, bodies=bodies, switch=sw)
+        groups.append(('edge:' + name, [[scen] + w for w in edge]))
+        a = run.generate('PlainReadGen', cfgtext=cfg % ('{"one_request_at_a_time"}', 'INVARIANT NoAttack\nVIEW AttackView'), expect_violation=True)
+        if not a:
+            raise ToolTrouble('no attack word for guard one_request_at_a_time (%s)' % name)
+        attacks.append([scen] + a[0])
+    groups.append(('attack:one_request_at_a_time', attacks))
+    return groups, dict(edge_words_enumerated=total, scenarios=3)
+
+
+def plainread_family(run, replay=None):
+    def sanity(lines, behs):
+        if not any(x.get('a') == 'Abort' and x.get('err') == 'timeout' for x in lines):
+            raise ToolTrouble('vacuous run: no blocked read was ever aborted')
+        if not any(x.get('a') == 'ReadReturn' and x.get('ret', 0) > 0 for x in lines):
+            raise ToolTrouble('vacuous run: no read returned data')
+
+    def extra(lines, behs):
+        return dict(reads_returned=sum(1 for x in lines if x.get('ret', -1) > 0), reads_aborted=sum(1 for x in lines if x.get('a') == 'Abort' and x.get('err') == 'timeout'),
+                    reads_through_the_session=sum(1 for x in lines if x.get('a') == 'ReadSession'))
+    return generic_family(run, replay, hcv='plainread', trace_mod='PlainReadTrace', gen=plainread_gen,
+                          rules={'NoReadAhead': 'C05', 'ExactBytes': 'C05', 'Progress': 'C05'}, level='model_checking',
+                          assumptions=['a real hap.Connection on a scripted socket, without a session; the HTTP server is replaced by the word: it reads, announces that a request is handled / answered (SetHandlingRequest, what http.ConnState does) and aborts a read (a deadline in the past, what net/http does when a handler returns)',
+                                       'requests are POSTs with a Content-Length; the head arrives in two pieces cut inside the name of that header; line ends are CRLF or bare LF by seed',
+                                       'a read is taken for blocked when it has not returned after 15 ms'],
+                          rule_text='one word per (state, action) of PlainRead.tla for three request sequences (bodies 0/2/1 with the session installed by the second response, 1/0 with the first, 0/0/0 without), sampled by seed in quick, plus the attack words of the guard one_request_at_a_time; distinct = abstract word; non-trivial = contains a read',
+                          nontrivial=lambda b: any(s.get('a') in ('ReadReturn', 'ReadCall') for s in b['steps']), sanity=sanity, extra_cov=extra,
+                          fpfun=lambda rule, b, line: '%s/%s' % (rule, line.get('a')))
+
+
 def with_e2e(base):
     return with_stage(base, e2e_family, 'e2e', 'end_to_end_part')
 
@@ -1534,3 +1580,4 @@ for _p in ('C01', 'C03', 'C10', 'C20'):
     REGISTRY[_p] = with_e2e(REGISTRY[_p])
 REGISTRY['C09'] = with_stage(REGISTRY['C09'], responses_family, 'responses', 'concurrent_responses_part')
 REGISTRY['C13'] = with_stage(REGISTRY['C13'], responses_family, 'responses', 'concurrent_responses_part')
+REGISTRY['C05'] = with_stage(REGISTRY['C05'], plainread_family, 'plainread', 'reads_before_the_session_part')
